@@ -18,7 +18,7 @@ Representation choices (none is read by the modelled code paths in a way that ch
 * `store` is the *abstract* event store of C20: per stream the full append log (`none` = the empty
   priming payload).  It is never purged here (C08 assumes the store keeps its contract; C20 proves
   the in-memory store either replays exactly or reports the purge).
-* ghost fields, never read by `step`: `Item.ctx`, `Exch.stream`, `Exch.from`, `Stream.calls`, `Conn.hist`.
+* ghost fields, never read by `step`: `Item.ctx`, `Exch.stream`, `Exch.from`, `Stream.calls`, `Conn.hist`, `Conn.born`.
 
 Deviations from Appendix E (all recorded because the differential run asked for them):
 * labels that open an exchange carry a write `budget` (WFAIL at a chosen point of the exchange, incl. "from the
@@ -128,6 +128,7 @@ structure Conn (α : Type) where
   exs        : List (Exch α)                          -- HTTP exchanges, index = ExId
   nextSid    : SId
   hist       : SId → Option (List ReqId × Bool)       -- ghost: (calls, listen) of every registered stream
+  born       : SId → Option ExId := fun _ => none     -- ghost: the POST exchange that registered the stream
 
 /-- `Connect`: the standalone stream exists from the start and is opened in the store. -/
 def init {α} (cfg : Cfg) : Conn α :=
@@ -253,6 +254,7 @@ def register {α} (c : Conn α) (calls : List ReqId) (listen : Bool) (ver : Ver)
            reqStreams := fun r => if r ∈ calls then some c.nextSid else c.reqStreams r,
            exs := c.exs ++ [{ kind := if useSSE c listen then .sse else .json, budget := budget, stream := c.nextSid, «from» := 0 }],
            hist := fun k => if k = c.nextSid then some (calls, listen) else c.hist k,
+           born := fun k => if k = c.nextSid then some c.exs.length else c.born k,
            store := postStore c listen ver }
 
 def postNew {α} (c : Conn α) (calls : List ReqId) (listen : Bool) (ver : Ver) (budget : Option Nat) : Conn α :=
